@@ -93,6 +93,25 @@ class MapDSStateful(MapDS):
         self.calls = sd["calls"]
 
 
+class MapFalsy(MapDS):
+    """Stateful map-style dataset whose state is FALSY before the first fetch ({}), and whose items depend on its state."""
+
+    def __init__(self, n, fail=()):
+        super().__init__(n, fail)
+        self.calls = 0
+
+    def __getitem__(self, i):
+        self.fail.check(i)
+        self.calls += 1
+        return 1000 * (self.calls - 1) + i
+
+    def state_dict(self):
+        return {"calls": self.calls} if self.calls else {}
+
+    def load_state_dict(self, sd):
+        self.calls = sd.get("calls", 0)
+
+
 class MapRng(MapDS):
     """Items depend on the per-worker global RNG (seeded by the loader's base seed): the same checkpoint must give
     the same continuation every time it is loaded, whatever the loading process' own seed is."""
@@ -391,6 +410,8 @@ def _make_dataset(cfg):
         return MapDSStateful(cfg["n"], fail)
     if k == "map_rng":
         return MapRng(cfg["n"], fail)
+    if k == "map_falsy":
+        return MapFalsy(cfg["n"], fail)
     sizes = cfg["sizes"]
     if k == "iter_plain":
         return IterPlain(sizes, fail)
